@@ -170,40 +170,107 @@ Print Assumptions C01_iteration_in_order.
 
 (* (9) Where the faithful model of the Go code violates the reference evaluator: the known findings.  Each witness
    is outside the guard. *)
-Theorem C01_values_in_test_refuted : fst (runM 60 w_values_test) <> fst (runS 60 w_values_test) /\ guardb 60 w_values_test = false.
-Proof. exact values_in_test_refuted. Qed.
-Print Assumptions C01_values_in_test_refuted.
 Theorem C01_let_binds_values_refuted : fst (runM 60 w_let_values) <> fst (runS 60 w_let_values) /\ guardb 60 w_let_values = false.
 Proof. exact let_binds_values_refuted. Qed.
 Print Assumptions C01_let_binds_values_refuted.
-Theorem C01_progn_values_refuted : fst (runM 60 w_progn_values) <> fst (runS 60 w_progn_values) /\ guardb 60 w_progn_values = false.
-Proof. exact progn_values_refuted. Qed.
-Print Assumptions C01_progn_values_refuted.
-Theorem C01_mapcar_values_refuted : fst (runM 60 w_mapcar_values) <> fst (runS 60 w_mapcar_values) /\ guardb 60 w_mapcar_values = false.
-Proof. exact mapcar_values_refuted. Qed.
-Print Assumptions C01_mapcar_values_refuted.
-Theorem C01_setq_values_refuted : fst (runM 60 w_setq_values) <> fst (runS 60 w_setq_values) /\ guardb 60 w_setq_values = false.
-Proof. exact setq_values_refuted. Qed.
-Print Assumptions C01_setq_values_refuted.
-Theorem C01_or_values_refuted : fst (runM 60 w_or_values) <> fst (runS 60 w_or_values) /\ guardb 60 w_or_values = false.
-Proof. exact or_values_refuted. Qed.
-Print Assumptions C01_or_values_refuted.
-Theorem C01_dotimes_negative_refuted : fst (runM 60 w_dotimes_neg) <> fst (runS 60 w_dotimes_neg) /\ guardb 60 w_dotimes_neg = false.
-Proof. exact dotimes_negative_refuted. Qed.
-Print Assumptions C01_dotimes_negative_refuted.
 Theorem C01_too_few_arguments_refuted :
   fst (runM 60 w_short_args) = Ok (VList [VInt 1; VSym "x"]) /\ fst (runS 60 w_short_args) = Er EArity /\ guardb 60 w_short_args = false.
 Proof. exact too_few_arguments_refuted. Qed.
 Print Assumptions C01_too_few_arguments_refuted.
-Theorem C01_do_atom_test_refuted :
-  fst (runM 200 w_do_atom) = Er EFuel /\ fst (runS 200 w_do_atom) = Ok (VInt 5) /\ guardb 200 w_do_atom = false.
-Proof. exact do_atom_test_refuted. Qed.
-Print Assumptions C01_do_atom_test_refuted.
-Theorem C01_loop_scope_refuted :
-  forallb (fun p => guardb 60 p) [w_dolist_scope; w_dotimes_scope; w_dostar_scope] = false /\
-  fst (runM 60 w_dolist_scope) = Ok VNil /\ fst (runS 60 w_dolist_scope) = Ok (VInt 10) /\
-  fst (runM 60 w_dotimes_scope) = Ok (VInt 2) /\ fst (runS 60 w_dotimes_scope) = Ok (VInt 10) /\
-  fst (runM 60 w_dostar_scope) = Ok (VInt 5) /\ fst (runS 60 w_dostar_scope) = Ok (VInt 1) /\
-  guardb 60 w_dolist_scope = false /\ guardb 60 w_dotimes_scope = false /\ guardb 60 w_dostar_scope = false.
-Proof. exact loop_scope_refuted. Qed.
-Print Assumptions C01_loop_scope_refuted.
+(* (10) Repaired defects (repo_fixes/C01-6 ...): the former witnesses, evaluated in the three modes - the model of the
+   repaired Go code, the reference evaluator and the guard run agree, i.e. the programs are now inside the guard.
+   End test of do / do* that is not a list form (t, a variable): evaluated like any other test. *)
+Theorem C01_do_atom_test_evaluated :
+  forallb (fun m => match fst (run m 60 w_do_atom), fst (run m 60 w_do_var) with
+                    | Ok (VInt 5), Ok (VInt 3) => true | _, _ => false end) [Slip; Ref; Chk] = true.
+Proof. exact do_atom_test_evaluated. Qed.
+Print Assumptions C01_do_atom_test_evaluated.
+(* dotimes with a negative count: no iteration, the result form sees 0; and for every count the final value of the
+   variable, Z.max k 0, is the number of iterations the model makes. *)
+Theorem C01_dotimes_negative_count_zero :
+  forallb (fun m => match fst (run m 60 w_dotimes_neg) with Ok (VInt 0) => true | _ => false end) [Slip; Ref; Chk] = true.
+Proof. exact dotimes_negative_count_zero. Qed.
+Print Assumptions C01_dotimes_negative_count_zero.
+Theorem C01_dotimes_variable_is_iteration_count : forall k, Z.max k 0 = Z.of_nat (List.length (seq 0 (Z.to_nat k))).
+Proof. exact dotimes_iterations. Qed.
+Print Assumptions C01_dotimes_variable_is_iteration_count.
+
+(* progn (repo_fixes/C01-10): in every mode progn evaluates its forms in sequence and its result is the result of the
+   last form with ALL its values - (progn e) is e -; the former witness now yields (1 2). *)
+Theorem C01_progn_is_sequence : forall m n st sc es, eval m (S n) st sc (EProgn es) = ev_seq (eval m n) st sc es VNil.
+Proof. exact progn_is_sequence. Qed.
+Print Assumptions C01_progn_is_sequence.
+Theorem C01_progn_passes_all_values : forall m n st sc e, eval m (S n) st sc (EProgn [e]) = eval m n st sc e.
+Proof. exact progn_single. Qed.
+Print Assumptions C01_progn_passes_all_values.
+Theorem C01_progn_values_passed :
+  forallb (fun m => match fst (run m 60 w_progn_values) with Ok (VList [VInt 1; VInt 2]) => true | _ => false end) [Slip; Ref; Chk] = true.
+Proof. exact progn_values_passed. Qed.
+Print Assumptions C01_progn_values_passed.
+
+(* loop forms (repo_fixes/C01-12, C01-13): the list form of dolist, the count form of dotimes and the init forms of do*
+   are evaluated outside the scope of the variable(s) they precede; the former witnesses yield 10, 10 and 1 in every
+   mode; the init forms of do* proceed like those of let*. *)
+Theorem C01_loop_forms_outer_scope :
+  forallb (fun m => match fst (run m 60 w_dolist_scope), fst (run m 60 w_dotimes_scope), fst (run m 60 w_dostar_scope) with
+                    | Ok (VInt 10), Ok (VInt 10), Ok (VInt 1) => true | _, _, _ => false end) [Slip; Ref; Chk] = true.
+Proof. exact loop_forms_outer_scope. Qed.
+Print Assumptions C01_loop_forms_outer_scope.
+Theorem C01_dostar_inits_like_letstar : forall m ev st sc x e s bs,
+  ev_inits_seq m ev st sc ((x, e, s) :: bs) =
+  bind (ev st sc e) (fun v st1 => bindo (store_red m v) st1 (fun a =>
+    ev_inits_seq m ev (snd (alloc st1 [(x, a)])) ((List.length (frames st1), 1) :: sc) bs)).
+Proof. exact dostar_inits_like_letstar. Qed.
+Print Assumptions C01_dostar_inits_like_letstar.
+
+(* or (repo_fixes/C01-14): a form that is not the last is judged by and contributes its primary value, in every mode
+   (with C01_and_or_short_circuit: or stops at the first form whose primary value is not nil and returns that value). *)
+Theorem C01_or_step_same : forall m v, or_step m v = Ok (if is_nil (primary v) then None else Some (primary v)).
+Proof. exact or_step_same. Qed.
+Print Assumptions C01_or_step_same.
+Theorem C01_or_takes_primary_value :
+  forallb (fun m => match fst (run m 60 w_or_values) with Ok (VList [VInt 5; VNil]) => true | _ => false end) [Slip; Ref; Chk] = true.
+Proof. exact or_takes_primary_value. Qed.
+Print Assumptions C01_or_takes_primary_value.
+
+(* setq and cond (repo_fixes/C01-15, C01-16): (setq x e) stores and returns the primary value of e, in every mode; the
+   former witnesses yield (1 nil). *)
+Theorem C01_setq_returns_stored : forall m ev st sc x e v st1 st2,
+  ev st sc e = (Ok v, st1) -> assign m st1 sc x (primary v) = (Ok tt, st2) ->
+  ev_setq m ev st sc [(x, e)] VNil = (Ok (primary v), st2).
+Proof. exact setq_returns_stored. Qed.
+Print Assumptions C01_setq_returns_stored.
+Theorem C01_setq_cond_single_value :
+  forallb (fun m => match fst (run m 60 w_setq_values), fst (run m 60 w_cond_values) with
+                    | Ok (VList [VInt 1; VNil]), Ok (VList [VInt 1; VNil]) => true | _, _ => false end) [Slip; Ref; Chk] = true.
+Proof. exact setq_cond_single_value. Qed.
+Print Assumptions C01_setq_cond_single_value.
+
+(* mapcar (repo_fixes/C01-17): in every mode the result list holds the primary value of each call, in call order. *)
+Theorem C01_mapcar_collects_primary : forall m ev st c row rows v st1 vs st2,
+  apply_fn m ev st c row = (Ok v, st1) -> ev_map m ev st1 c rows = (Ok vs, st2) ->
+  ev_map m ev st c (row :: rows) = (Ok (primary v :: vs), st2).
+Proof. exact mapcar_collects_primary. Qed.
+Print Assumptions C01_mapcar_collects_primary.
+Theorem C01_mapcar_collects_primary_values :
+  forallb (fun m => match fst (run m 60 w_mapcar_values) with Ok (VInt 2) => true | _ => false end) [Slip; Ref; Chk] = true.
+Proof. exact mapcar_collects_primary_values. Qed.
+Print Assumptions C01_mapcar_collects_primary_values.
+
+(* dolist / dotimes (repo_fixes/C01-18): the list / count form contributes its primary value, in every mode. *)
+Theorem C01_loop_form_primary_value :
+  forallb (fun m => match fst (run m 60 w_dotimes_values), fst (run m 60 w_dolist_values) with
+                    | Ok (VInt 2), Ok (VInt 3) => true | _, _ => false end) [Slip; Ref; Chk] = true.
+Proof. exact loop_form_primary_value. Qed.
+Print Assumptions C01_loop_form_primary_value.
+
+(* tests (repo_fixes/C01-19): if, when, unless, cond, and, do, do* decide by the primary value of the test form, in every
+   mode (so the conditional laws (4) speak about the same test in M and S). *)
+Theorem C01_truthy_primary : forall m v, truthy m v = Ok (negb (is_nil (primary v))).
+Proof. exact truthy_primary. Qed.
+Print Assumptions C01_truthy_primary.
+Theorem C01_tests_look_at_primary_value :
+  forallb (fun m => match fst (run m 60 w_values_test), fst (run m 60 w_values_tests) with
+                    | Ok (VInt 2), Ok (VList [VNil; VInt 4; VInt 6; VNil; VInt 2]) => true | _, _ => false end) [Slip; Ref; Chk] = true.
+Proof. exact tests_look_at_primary_value. Qed.
+Print Assumptions C01_tests_look_at_primary_value.
